@@ -604,6 +604,10 @@ def oracle(case, f, flt, aux, res, used_mult, fail):
             vd = list(case["vdims_arg"])
         else:
             vd = inplane_labels(f)
+        unknown = [l for l in vd if l and l not in list(f.vdims or [])]
+        if unknown:
+            fail(f"vector plot drew arrows for the label {unknown[0]!r}, which is not a component label of the field ({f.vdims})")
+            return
         comps = [list(f.vdims).index(l) if l else None for l in vd]
         seen = set()
         for k in range(N):
@@ -951,7 +955,7 @@ def expectation(case, f, flt, aux):
 def model_requests(case, obs):
     if case["kind"] == "table":
         return [dict(op="si_table")] + [dict(op="si_multiplier", v=v) for v in obs["mvals"]]
-    if obs.get("status") == "skip":
+    if obs.get("status") == "skip" or "field" not in obs:  # not built / adapter crashed (reported by core as a failure)
         return []
     if str(case.get("refusal", "")).startswith("ndim"):
         return [dict(op="plot", kind=case["kind"], field=obs["field"], use_color=False)]
@@ -1126,7 +1130,7 @@ def compare(case, obs, rs):
                 dis.append(f"si_multiplier({float(F(v))!r}): ubermagutil {a} vs model {b}")
                 break
         return dis
-    if obs.get("status") == "skip":
+    if obs.get("status") == "skip" or "field" not in obs:
         return []
     if str(case.get("refusal", "")).startswith("ndim"):
         st = "ok" if "ok" in rs[0] else "err"
